@@ -258,6 +258,10 @@ class DefUse(Structured):
         return st
 
     def on_funcdef(self, st, node):
+        # a nested function (or a lambda bound to a name) reads what its body reads - when it is called, which is within this activation:
+        # its reads are taken where it is defined
+        for b in node.body:
+            self.reads(b, st)
         return st
 
     def unsupported(self, st, stmt):
